@@ -56,3 +56,15 @@ Example other_half_instance :
   ev Q8 q0 q1 qadd qmul qopp 4 (rpow Q8 q1 qmul qX (4 * (2 ^ 1 - 0 - 1) + 3)) fex
   = qconj (ev Q8 q0 q1 qadd qmul qopp 4 (rpow Q8 q1 qmul qX (4 * 0 + 1)) fex).
 Proof. exact (other_half_by_conjugation Q8 q0 q1 qadd qmul qsub qopp Q8_ring qconj qconj_add qconj_mul qconj_one 1 qX qX_root qconj_X fex 0 ltac:(cbn; lia)). Qed.
+
+(* the inverse transform from the stored half, at work: the two stored points of fex (N = 4, M = 2), coefficient j = 1 *)
+Example inverse_from_half_instance :
+  let H := rsum Q8 q0 qadd 2 (fun k => qmul (rpow Q8 q1 qmul qX ((4 * k + 1) * (2 * 2 ^ 2 - 1)))
+                                            (ev Q8 q0 q1 qadd qmul qopp 4 (rpow Q8 q1 qmul qX (4 * k + 1)) fex)) in
+  qadd H (qconj H) = (-20, 0, 0, 0).
+Proof. vm_compute. reflexivity. Qed.
+Example inverse_from_half_instance_thm :
+  let H := rsum Q8 q0 qadd 2 (fun k => qmul (rpow Q8 q1 qmul qX ((4 * k + 1) * (2 * 2 ^ 2 - 1)))
+                                            (ev Q8 q0 q1 qadd qmul qopp 4 (rpow Q8 q1 qmul qX (4 * k + 1)) fex)) in
+  qadd H (qconj H) = qmul (zr Q8 q0 q1 qadd qmul qopp 4) (zr Q8 q0 q1 qadd qmul qopp (-5)).
+Proof. exact (inverse_from_half Q8 q0 q1 qadd qmul qsub qopp Q8_ring qconj qconj_add qconj_mul qconj_one 1 qX qX_root qconj_X fex 1 ltac:(cbn; lia)). Qed.
